@@ -148,6 +148,29 @@ for k, v in addenda6.items():
     e = checks[k]
     checks[k] = (e[0], e[1], e[2] + v, e[3], e[4])
 
+# extensions after the seventh round
+addenda7 = {'C03': ' The whole suite also for *int, float64 (with -0 and +Inf) and a struct with a pointer field; Range for float64 / float32 / int8 / uint8 with fractional bounds and hops.',
+ 'C04': ' The payload table (nil, typed nil pointers, zero values, equal-but-distinct pointers, an error value) through the interface{} stream operations that look at values (FilterNotNil, Distinct, Contains, RemoveItem) and nil / distinct pointers through StreamDef[*int].',
+ 'C05': ' The set laws judged on symbols for other element types: float64 (one element written +0 and -0), pointers to equal structs, structs whose printed forms collide, *int, strings differing in case, structs with pointer fields.',
+ 'C06': ' Every history to depth 5 over {Offer, Unshift, Poll, Pop, Peek} storing the payload table (interface{}) and value tables of float64, *int, string, bool and a struct with a pointer field: removals return exactly the stored value (identity, sign of zero).',
+ 'C07': ' Payload scenarios: nil and typed nil pointers, equal neighbours, zero values and equal structs with distinct pointers through the overflow buffer of a BufferedChannelQueue[interface{}].',
+ 'C08': ' The payload table through every removal entry point of the wrappers.',
+ 'C09': ' A job that panics with a typed nil pointer.',
+ 'C10': ' The payload table published on Publisher[interface{}] / [*int], received directly, through Map(identity) and through a Map to nil.',
+ 'C11': ' Just(v) for the payload table and for a MonadIO as a value: Eval, Subscribe and FlatMap see exactly v.',
+ 'C12': ' The payload table as messages of an Actor[interface{}]; zero-valued messages queued in a buffered Actor[int] that is then closed.',
+ 'C13': ' The payload table as replies (incl. a value that is an error).',
+ 'C14': ' The payload table as requests, answers and the StartWithVal value of a Cor[interface{}] (identity preserved).',
+ 'C15': ' TakeWithTimeout with a zero and a negative timeout on a closed queue.',
+ 'C16': ' nil-containing []interface{} and []*int lists; one default-schedule smoke run over 3 000 elements (70 000 in the thorough tier).',
+ 'C17': ' Path parameters of named types with String methods, durations and booleans; zero-valued and empty JSON bodies.',
+ 'C18': ' The interceptors of the world are created in one loop (closures of one function literal).',
+ 'C19': ' int64 keys of the largest magnitudes; rows of mixed dynamic struct types behind interface{} sorted by field name.',
+ 'C20': ' Regex patterns whose match is empty.'}
+for k, v in addenda7.items():
+    e = checks[k]
+    checks[k] = (e[0], e[1], e[2] + v, e[3], e[4])
+
 not_yet = "check not built yet in this round (see DESIGN.md §9 build order); no claim made"
 
 m = {
